@@ -58,6 +58,10 @@ def jobs(tier):
         for kind in ("fixed_string", "fixed_encoded_string"):
             js.append(dict(name=f"{kind}[L=2,pre={npre}]", fn="fixed", args=[kind, 2, npre, 0, 5], collect_models=1,
                            expect=[kind + ": emitted bytes equal the reference image"]))
+    if tier == "quick":
+        # one write beyond 255 bytes (one-byte size thresholds in helpers shared by all string writes)
+        js.append(dict(name="string[L=260,pre=1]", fn="string", args=["string", 260, 1], collect_models=1,
+                       expect=["string: emitted bytes equal the reference image"]))
     for L in ((66, 130) if tier == "quick" else (33, 66, 130, 260, 520)):
         for kind in ("string", "encoded_string"):
             js.append(dict(name=f"{kind}[L={L},pre=1]", fn="string", args=[kind, L, 1], collect_models=1,
